@@ -37,6 +37,8 @@ HINT_AFTER = '''        proof {
 
 def annotate_d9(f):
     vlib.d9_values_mut(f)
+    if re.search(r'\{\s*continue;\s*\}', f.text):     # not in the repository text; keeps a changed text inside the verifier's subset
+        vlib.d8_continue(f)
     ls = f.loops()
     if len(ls) != 1:
         f._lost('expected one loop')
@@ -53,6 +55,7 @@ def build(U):
     U.add(SPEC)
     S = U.src('src/broker/store.rs')
     G = U.src('src/broker/storage.rs')
+    U.add('impl ClusterStore {\n    // out of reach (iterator any() chain); not called by the functions under contract in the repository text\n    #[verifier::external_body] pub fn is_migrating(&self) -> bool { unimplemented!() }\n}\n')
     U.add('impl MetaStore {\n')
     rec = S.fn('recover_epoch', within=r'impl MetaStore\b')
     annotate_d9(rec)
